@@ -488,7 +488,8 @@ class TopWriter(object):
         success = self.subwriter.write(record)
         if success:
             self.NW += 1
-        return success
+        # Report "stop" together with the last allowed record, otherwise the main loop keeps reading input until one more output candidate shows up.
+        return success and self.NW < self.top_count
 
     def finish(self):
         self.subwriter.finish()
